@@ -1564,7 +1564,8 @@ def run(ck):
     ck.cov["rule"] = ("all 36 ordered class pairs x parameter vectors (quarter-turn rotations and power-of-two scalings: exact; "
                       "arbitrary angles incl. near 0 and near pi: 1e-9), with/without reflection flag; integer 4x4 matrices of both "
                       "determinant signs per class; param vectors on dyadic grids for 5 radii; ChainTransform triples and compose/inv "
-                      "chains of length 2..5; distinct by (section, classes, parameter vectors)")
+                      "chains of length 2..5; right-nested compose chains of 3..7 transforms through the model's compose_right; threshold / to_matrix44 "
+                      "translation clip on integer vectors inside, at and beyond the bound; distinct by (section, classes, parameter vectors)")
     ck.coq_build()
     ck.overlay()
     e = setup(ck)
@@ -1591,7 +1592,8 @@ def run(ck):
         "sin^2 + cos^2 = 1 and sqrt from Coq's Reals for rotation_vec2mat_is_rotation; exact division (floating point error not modelled)",
         "the harness reads _vec12/_direct of implementation objects and replaces nipy.algorithms.registration.affine.spl by a recording proxy",
     ]
-    ck.assume += ["translations within MAX_DIST and log-scales within LOG_MAX_DIST (thresholds are part of the oracle-evaluated view)",
+    ck.assume += ["log-scales within LOG_MAX_DIST (that threshold is part of the oracle-evaluated view; the translation clip at MAX_DIST is "
+                  "modelled: threshold_clips / clip_vec_clips / to_matrix44_translation_clipped, integer-valued inputs)",
                   "matrices handed to from_matrix44 are non-singular with singular values in [1e-10, 1e10]"]
     if ck.build is not None and ck.build.ok:
         res = ck.coq_bools(HDR, T.terms, shard=ck.n(90, 250))
